@@ -177,7 +177,7 @@ theorem requestTerminate_dp (s : EState) (k r : String) : (requestTerminate s k 
   · rfl
   · have hp : (termPrep s k r).deferredPause = s.deferredPause := by unfold termPrep; frame_dp
     split
-    · exact hp
+    · rfl
     · rename_i s' hs
       have ha : ∀ (x : EState) (w : Bool), (termAfter x k w).deferredPause = x.deferredPause := by
         intro x w; unfold termAfter; frame_dp
